@@ -1,64 +1,55 @@
 import FimVerif.Drivers.TopoRun
 import FimVerif.Proofs.C07
+import FimVerif.Model.TopoView
+import FimVerif.Model.TopoExt
 /-! C07 driver: the shared interpreter of `Model/Topo.lean` plus
 * `{"op":"inv"}` - evaluates every conjunct of `Topo.Inv` (Proofs/Lemmas/TopoInv.lean) on the current model state;
-* `{"op":"covered","call":{…}}` - reads the request of a building call as a `TopoOp` (same argument extraction as
-  `TopoRun.step`) and evaluates the guards `C07.CoveredS` / `C07.CoveredD` of the history theorems (Proofs/C07.lean, no Mathlib)
+* `{"op":"covered","call":{…}}` - reads the request of a building call as a `TopoOp` / `XOp` (the argument extraction of
+  `TopoRun.step` itself: `TopoRun.opOf` / `xopOf`) and evaluates the guards `C07.CoveredS` / `CoveredD` (`CoveredSX` / `CoveredDX`) of the history theorems
   and `InvS` / `InvD` in the current state, i.e. before the call. -/
 open Lean FimVerif FimVerif.Proto FimVerif.Topo FimVerif.TopoRun
-
-def opOfJson (j : Json) : Option TopoOp :=
-  let op := getStr j "op"
-  let fl := flOf j
-  let u := getNat j "u"
-  let ifa := ifArg ((j.getObjVal? "if").toOption.getD Json.null)
-  if op == "add_node" then some (.addNode fl u ⟨getStr j "name", optNid j "nid", optStr j "site", optStr j "ntype", propArgs j "props"⟩)
-  else if op == "add_component" then
-    some (.addComponent fl u (nidOfString (getStr j "parent"))
-      ⟨getStr j "name", optNid j "nid", optStr j "ctype", optStr j "model", optNid j "ns_nid",
-       (getArr j "if_nids").map (·.filterMap (fun x => x.getStr?.toOption.map nidOfString)),
-       (j.getObjValAs? Nat "n_labels").toOption, propArgs j "props"⟩)
-  else if op == "add_storage" then
-    some (.addStorage fl u (nidOfString (getStr j "parent")) (getStr j "name") (optNid j "nid") (propArgs j "props"))
-  else if op == "node_add_service" then some (.nodeAddService fl u (nidOfString (getStr j "parent")) (svcArgs j))
-  else if op == "add_service" then some (.addService fl u (svcArgs j))
-  else if op == "add_link" then
-    some (.addLink fl u (getStr j "name") (optNid j "nid") (optStr j "ltype") (ifArgs j "ifs") (optStr j "tech") (propArgs j "props"))
-  else if op == "ns_add_interface" then
-    some (.nsAddInterface fl u (nidOfString (getStr j "svc")) (cacheOf j "cache") (getStr j "name") (optNid j "nid") (optStr j "itype")
-      (propArgs j "props"))
-  else if op == "ns_remove_interface" then some (.nsRemoveInterface fl (nidOfString (getStr j "svc")) (getStr j "name"))
-  else if op == "connect" then some (.connect fl u (nidOfString (getStr j "svc")) (cacheOf j "cache") ifa)
-  else if op == "disconnect" then some (.disconnect (cacheOf j "cache") ifa)
-  else if op == "add_facility" then
-    some (.addFacility fl u (getStr j "name") (optNid j "nid") (optStr j "site") (optStr j "nstype") (propArgs j "nsprops")
-      (facIfs j "ifs") (propArgs j "props"))
-  else if op == "add_switch" then
-    some (.addSwitch fl u (getStr j "name") (optNid j "nid") (optStr j "site") (optStr j "nstype") (propArgs j "nsprops")
-      (portSpecs j "ports"))
-  else if op == "remove_node" then some (.removeNode (getStr j "name"))
-  else if op == "remove_facility" then some (.removeFacility (getStr j "name"))
-  else if op == "remove_switch" then some (.removeSwitch (getStr j "name"))
-  else if op == "remove_link" then some (.removeLink (getStr j "name"))
-  else if op == "remove_service" then some (.removeService (getStr j "name"))
-  else if op == "node_remove_service" then some (.nodeRemoveService (nidOfString (getStr j "parent")) (getStr j "name"))
-  else if op == "remove_component" then some (.removeComponent (nidOfString (getStr j "parent")) (getStr j "name"))
-  else if op == "set_props" then some (.setProps (nidOfString (getStr j "nid")) (propArgs j "props"))
-  else if op == "unset_prop" then some (.unsetProp (nidOfString (getStr j "nid")) (optStr j "gname"))
-  else if op == "rename" then some (.rename (clsOf (getStr j "kind")) (nidOfString (getStr j "nid")) (getStr j "name"))
-  else none
 
 def stepC07 (s : Topo) (j : Json) : Topo × Json :=
   let op := getStr j "op"
   if op == "inv" then
     (s, ok (Json.mkObj ((verdicts s ++ [("invS", decide (InvS s)), ("invSN", decide (InvSN s))]).map (fun p => (p.1, Json.bool p.2)))))
   else if op == "covered" then
-    match opOfJson ((j.getObjVal? "call").toOption.getD Json.null) with
-    | none => (s, err "bad-call")
+    let call := (j.getObjVal? "call").toOption.getD Json.null
+    match opOf call with
+    | none =>
+      match xopOf call with
+      | none => (s, err "bad-call")
+      | some x =>
+        (s, ok (Json.mkObj [("coveredD", Json.bool (decide (FimVerif.C07.CoveredDX s x))), ("coveredS", Json.bool (decide (FimVerif.C07.CoveredSX s x))),
+                            ("coveredN", Json.bool (decide (FimVerif.C07.CoveredSX s x))), ("invSN", Json.bool (decide (InvSN s))),
+                            ("invD", Json.bool (decide (InvD s))), ("invS", Json.bool (decide (InvS s)))]))
     | some o =>
       (s, ok (Json.mkObj [("coveredD", Json.bool (decide (FimVerif.C07.CoveredD s o))), ("coveredS", Json.bool (decide (FimVerif.C07.CoveredS s o))),
                           ("coveredN", Json.bool (decide (FimVerif.C07.CoveredN s o))), ("invSN", Json.bool (decide (InvSN s))),
                           ("invD", Json.bool (decide (InvD s))), ("invS", Json.bool (decide (InvS s)))]))
+  else if op == "set_props" && writesNameOrType (propArgs j "props") then
+    -- the keywords `name` / `type` (Model/TopoExt.lean; the shared `Topo.setProps` covers the others)
+    finish (setPropsNT (nidOfString (getStr j "nid")) (propArgs j "props") s) nul nul
+  else if op == "view_calls" then
+    -- one view object over the current model; the calls are applied to it in turn; reply: per call the outcome and the view's keys
+    let kind := if getStr j "view" == "nodes" then FimVerif.TopoView.Kind.nodes else if getStr j "view" == "facilities" then .facilities
+      else if getStr j "view" == "links" then .links else .services
+    let calls : List FimVerif.TopoView.Call := ((getArr j "calls").getD []).filterMap (fun x => match x with
+      | .arr #[.str c, .str k] =>
+        some (if c == "len" then .len else if c == "keys" then .keys else if c == "contains" then .contains k
+              else if c == "getitem" then .getitem k else if c == "get" then .get k else .mutator c k)
+      | _ => none)
+    let step (acc : FimVerif.TopoView.VState × List Json) (c : FimVerif.TopoView.Call) : FimVerif.TopoView.VState × List Json :=
+      let r := FimVerif.TopoView.call c acc.1
+      let out : Json := match r.1 with
+        | .ok (.nat n) => Json.arr #[Json.str "ok", Json.num n]
+        | .ok (.strs l) => Json.arr #[Json.str "ok", ofStrs l]
+        | .ok (.bool b) => Json.arr #[Json.str "ok", Json.bool b]
+        | .ok .unit => Json.arr #[Json.str "ok", Json.null]
+        | .error e => Json.arr #[Json.str "err", Json.str e.toWire]
+      (r.2, acc.2 ++ [Json.arr #[out, ofStrs r.2.keys]])
+    let fin := calls.foldl step (FimVerif.TopoView.openView kind s, [])
+    (s, ok (Json.arr fin.2.toArray))
   else FimVerif.TopoRun.step s j
 
 def main : IO Unit := runState FimVerif.Topo.Topo.empty stepC07
